@@ -27,9 +27,16 @@ func VerifRun_C09n() {
 	dm.SetVSRootDir(root)
 	dm.InitMainDir()
 	files := []string{root + "/a.lua", root + "/b.lua", root + "/c.lua"}
+	// optionally one generated file that alone has more symbols than the limit (error codes); the other files
+	// are small then
+	big := verifBool("bigFile")
+	per := 70
+	if big {
+		per = 6
+	}
 	for fi, f := range files {
 		src := ""
-		for i := 0; i < 70; i++ {
+		for i := 0; i < per; i++ {
 			name := "item" + string(rune('A'+fi)) + strconv.Itoa(i)
 			if i%27 == 5 {
 				name = "alphaBeta" + string(rune('A'+fi)) + strconv.Itoa(i)
@@ -38,7 +45,19 @@ func VerifRun_C09n() {
 		}
 		verifVFSPut(f, []byte(src))
 	}
-	q := []string{"alpha", "zzz", "itemB7"}[verifConcretize(verifRange("query", 0, 2))]
+	if big {
+		src := ""
+		for i := 0; i < 215; i++ {
+			src += "ERR_CODE_" + strconv.Itoa(1000+i) + " = " + strconv.Itoa(i) + "\n"
+		}
+		verifVFSPut(root+"/errcode.lua", []byte(src))
+		files = append(files, root+"/errcode.lua")
+	}
+	queries := []string{"alpha", "zzz", "itemB7"}
+	if big {
+		queries = []string{"ERR_CODE", "alpha"}
+	}
+	q := queries[verifConcretize(verifRange("query", 0, len(queries)-1))]
 	msg := "a workspace-symbol query on a workspace with more symbols than the answer limit is answered differently from run to run"
 	if verifNative() {
 		p := CreateAllProject(files, nil, nil)
@@ -59,9 +78,11 @@ func VerifRun_C09n() {
 	p1.HandleCheck()
 	a1 := c09nAnswer(p1, q)
 	verifMapOrder(false)
+	verifMapReverse(true) // every map, whatever its size, is now walked in the opposite order
 	p2 := CreateAllProject(files, nil, nil)
 	p2.HandleCheck()
 	a2 := c09nAnswer(p2, q)
+	verifMapReverse(false)
 	verifReach("compared")
 	if a1 != a2 {
 		verifViolation("", msg)
